@@ -691,10 +691,10 @@ def random_phase(ctx, n):
 def run(ctx):
     ext = ctx.pick([0, 5, 12], [0, 1, 5, 7, 12])
     shapes = [[a] for a in [0, 1, 5, 7, 12]] + [[a, b] for a in ext for b in ext]
-    shapes += ctx.pick([[5, 1, 7], [0, 5, 12]],
+    shapes += ctx.pick([[0, 5, 12]],
                        [[5, 1, 7], [0, 5, 12], [7, 7, 7], [12, 5, 1], [1, 0, 5], [12, 12, 12], [5, 7, 0], [1, 1, 1]])
     nrecs, t1, s1 = norm_phase(ctx, {"Fam": "norm", "N": -1, "Z": 0, "Shapes": TLA(_tla_shapes(shapes)), "ZShapes": TLA("{}"),
-                                     "Limits": set(ctx.pick([1, 4, 64], [1, 2, 4, 8, 16, 64])),
+                                     "Limits": set(ctx.pick([4, 64], [1, 2, 4, 8, 16, 64])),
                                      "Limits3": set(ctx.pick([2, 16], [1, 4, 16, 64])),
                                      "Itemsizes": set(ctx.pick([1, 8], [1, 4, 8]))},
                                ctx.pick(1, 2), ctx.pick(4000, 60000))
